@@ -1,7 +1,7 @@
 (* One entry point for the extracted driver and for cases.v: (tag arg) -> result. *)
 From Coq Require Import List NArith.
 Import ListNotations.
-Require Import Wire W_C18 W_C17 W_C15 W_C14 W_C10 W_C06 W_C20.
+Require Import Wire W_C18 W_C17 W_C15 W_C14 W_C10 W_C06 W_C20 W_C11 W_Paths.
 Local Open Scope N_scope.
 
 Definition dispatch (v : val) : val :=
@@ -15,5 +15,9 @@ Definition dispatch (v : val) : val :=
   | VL [VN 1001; a] => run_c10_decode a
   | VL [VN 600; a] => run_c06 a
   | VL [VN 2000; a] => run_c20 a
+  | VL [VN 1100; a] => run_c11_exec a
+  | VL [VN 1101; a] => run_restore_path a
+  | VL [VN 1102; a] => run_tar_path a
+  | VL [VN 2001; a] => run_validate_path a
   | _ => bad_input
   end.
